@@ -243,6 +243,15 @@ def bases():
         78: [((_tdm('float', [0.0, 1.0]),), {}, '')],
         79: [((_tdm('float', [0.1 + 0.2, 1.0], 'y'),), {}, '')],     # (a FloatColumn stores -0.0 as 0.0)
     })
+    # the numbers returned by column statistics are floats that are also callable (CallableFloat): the same argument as
+    # the plain float, distinct from each other (repaired: all of them were keyed as '__nameless__')
+    st = _dm({'a': [1, 2, 6]})
+    B.update({
+        94: [((st.a.mean,), {}, ''), ((3.0,), {}, '')],
+        95: [((st.a.max,), {}, ''), ((6.0,), {}, ''), ((st.a.sum - st.a.mean,), {}, '')],
+        96: [((), {'x': st.a.mean}, ''), ((), {'x': 3.0}, '')],
+        97: [(([st.a.mean, st.a.max],), {}, ''), (((3.0, 6.0),), {}, '')],
+    })
     # argument lists whose result is falsy / unusual (None, 0, '', [], False, NaN, 0.0, {}, (), an empty DataMatrix,
     # a tuple holding None, b'', [None], True)
     for b, tag in zip(SPECIAL_BASES, SPECIAL_TAGS):
@@ -270,7 +279,7 @@ def canon(x):
     if isinstance(x, int):
         return ['int', x]
     if isinstance(x, float):
-        return ['float', x]
+        return ['float', float(x)]      # a CallableFloat (col.mean ...) is described as the plain float it is
     if isinstance(x, str):
         return ['str', _fresh(x)]
     if x is None:
